@@ -35,6 +35,16 @@ func (o *typedObject) valuesFromHash(c px.Context, hash px.OrderedMap) []px.Valu
 	return va
 }
 
+// constantValue answers the value of a constant attribute. Constants have no position in an instance.
+func (o *typedObject) constantValue(key string) (px.Value, bool) {
+	if m, ok := o.typ.Member(key); ok {
+		if a, ok := m.(px.Attribute); ok && a.Kind() == constant {
+			return a.Value(), true
+		}
+	}
+	return nil, false
+}
+
 type attributeSlice struct {
 	typedObject
 	values []px.Value
@@ -128,7 +138,7 @@ func (o *attributeSlice) Get(key string) (px.Value, bool) {
 		}
 		return a.Value(), ok
 	}
-	return nil, false
+	return o.constantValue(key)
 }
 
 func (o *attributeSlice) Call(c px.Context, method px.ObjFunc, args []px.Value, block px.Lambda) (result px.Value, ok bool) {
@@ -357,7 +367,7 @@ func (o *reflectedObject) Get(key string) (px.Value, bool) {
 		}
 		return a.Value(), ok
 	}
-	return nil, false
+	return o.constantValue(key)
 }
 
 func (o *reflectedObject) Equals(other interface{}, g px.Guard) bool {
